@@ -189,6 +189,8 @@ def models_tie(rep, hbin, seed):
         body = (mm.group(1) if mm else (c2.stderr or c2.stdout))[-3000:]
         impl_panics = re.findall(r"\(\(\[[^\]]*\], \[[^\]]*\]\), \(\d, \d, 2\)\)", flat)
         thr_panics = re.findall(r"\(\d+, \d+, \d+, \((?:\d, ){0,4}2", flat)
+        lex_panics = ["script bytes " + x for x in re.findall(r"\(\[([0-9; ]*)\], \(2, 0\)", flat)]
+        impl_panics = impl_panics + lex_panics
         found = bool(impl_panics or thr_panics)
         rep.violation("models-tie", "the compiled code and the Coq models of RobustModel.v disagree: %s" % body[:1500],
                       {"property": "C11", "broken_tie": "Tables/RobustCasesCheck.v: robust_mismatches = ([],[],[],[],[])",
